@@ -246,8 +246,8 @@ class CoherentFeedForwardLoop:
         # Update circuit breaker
         if result.success and not result.blocked:
             self._record_success()
-        elif result.blocked:
-            # Blocks are intentional, not failures
+        elif result.success:
+            # Intentional blocks (success=True, blocked=True) are not failures
             pass
         else:
             self._record_failure()
